@@ -68,12 +68,18 @@ impl PoolInner {
     #[cfg_attr(test, mutants::skip)] // Removing this causes timeouts (workers never start)
     pub(crate) fn ensure_workers_spawned(self: &Arc<Self>, processor_id: ProcessorId) {
         // If the pool is shutting down, we should not spawn new workers.
+        #[cfg(folo_verif)]
+        crate::verif_hook::point("ensure:shutdown.load");
         if self.shutdown.load(Ordering::Relaxed) {
             return;
         }
 
+        #[cfg(folo_verif)]
+        crate::verif_hook::point("ensure:registry.get_or_init");
         let state = self.registry.get_or_init(processor_id);
 
+        #[cfg(folo_verif)]
+        crate::verif_hook::point("ensure:workers_spawned.cas");
         // Acquire on failure to synchronize with the Release on successful exchange.
         // AcqRel on success ensures:
         // - Acquire: we see all prior worker spawning activity.
@@ -92,12 +98,17 @@ impl PoolInner {
 
         for worker_index in 0..workers_count {
             let inner_clone = Arc::clone(self);
+            #[cfg(folo_verif)]
+            let verif_id = crate::verif_hook::before_spawn("worker");
             let handle = thread::Builder::new()
                 .name(format!(
                     "{}-{}-{}",
                     inner_clone.pool_name, processor_id, worker_index
                 ))
                 .spawn(move || {
+                    #[cfg(folo_verif)]
+                    crate::verif_hook::thread_start(verif_id);
+
                     // Pin worker thread to the target processor for cache locality.
                     if let Some(processor_set) = inner_clone
                         .hardware
@@ -124,8 +135,19 @@ impl PoolInner {
                         worker_index,
                         "worker thread exiting"
                     );
+
+                    // Release this worker's share of the pool while still under the control of
+                    // the verification scheduler, then announce the exit.
+                    #[cfg(folo_verif)]
+                    {
+                        drop(inner_clone);
+                        crate::verif_hook::thread_exit();
+                    }
                 })
                 .expect("failed to spawn worker thread: thread spawning failure is not supported");
+
+            #[cfg(folo_verif)]
+            crate::verif_hook::register_worker(handle.thread().id(), verif_id);
 
             new_handles.push(handle);
         }
@@ -139,7 +161,10 @@ impl PoolInner {
             hook();
         }
 
+        #[cfg(not(folo_verif))]
         let mut worker_handles = self.worker_handles.lock().expect(NEVER_POISONED);
+        #[cfg(folo_verif)]
+        let mut worker_handles = crate::verif_hook::lock("ensure:worker_handles.lock", &self.worker_handles);
 
         // Re-check shutdown flag under the lock to avoid race condition where
         // join_all_workers() runs concurrently and we add new handles after it
@@ -151,6 +176,9 @@ impl PoolInner {
         // them immediately.
         if self.shutdown.load(Ordering::Acquire) {
             for handle in new_handles {
+                #[cfg(folo_verif)]
+                crate::verif_hook::wait_for_exit(&handle);
+
                 if let Err(payload) = handle.join() {
                     panic::resume_unwind(payload);
                 }
@@ -166,6 +194,8 @@ impl PoolInner {
         // Signal shutdown to prevent new workers from being spawned.
         // We use Release to ensure this store is visible to ensure_workers_spawned
         // when it acquires the lock.
+        #[cfg(folo_verif)]
+        crate::verif_hook::point("join_all:shutdown.store");
         self.shutdown.store(true, Ordering::Release);
 
         // Signal all existing workers to exit.
@@ -183,9 +213,15 @@ impl PoolInner {
         // shared state is held while we wait. A worker that calls back into the
         // pool (for example to spawn additional workers) sees the shutdown flag and
         // exits without touching the now-empty handle list.
+        #[cfg(not(folo_verif))]
         let handles = mem::take(&mut *self.worker_handles.lock().expect(NEVER_POISONED));
+        #[cfg(folo_verif)]
+        let handles = mem::take(&mut *crate::verif_hook::lock("join_all:worker_handles.lock", &self.worker_handles));
 
         for handle in handles {
+            #[cfg(folo_verif)]
+            crate::verif_hook::wait_for_exit(&handle);
+
             if let Err(payload) = handle.join() {
                 // Worker threads run inside a panic trap and should never panic. If one does,
                 // something is very wrong with the pool infrastructure. We propagate the panic
@@ -206,6 +242,8 @@ fn worker_loop(inner: &PoolInner, processor_id: ProcessorId, worker_index: u32) 
     );
 
     loop {
+        #[cfg(folo_verif)]
+        crate::verif_hook::point("worker:iteration");
         match core.run_one_iteration() {
             IterationResult::ExecutedUrgent => {
                 trace!(
@@ -229,7 +267,11 @@ fn worker_loop(inner: &PoolInner, processor_id: ProcessorId, worker_index: u32) 
                 break;
             }
             IterationResult::WaitingForWork => {
+                #[cfg(folo_verif)]
+                crate::verif_hook::point("worker:listen");
                 listener!(state.wake_event => listener);
+                #[cfg(folo_verif)]
+                crate::verif_hook::point("worker:recheck");
 
                 // Re-check after registering listener to avoid lost wakeups.
                 // Acquire ordering synchronizes with Release in signal_shutdown and task push.
@@ -240,7 +282,14 @@ fn worker_loop(inner: &PoolInner, processor_id: ProcessorId, worker_index: u32) 
                     continue;
                 }
 
+                #[cfg(not(folo_verif))]
                 listener.wait();
+                #[cfg(folo_verif)]
+                if crate::verif_hook::active() {
+                    crate::verif_hook::wait_listener(&mut listener);
+                } else {
+                    listener.wait();
+                }
             }
         }
     }
